@@ -1,15 +1,127 @@
-"""C08 — parsing cyclic and deep schema graphs terminates with balanced state."""
+"""C08 — parsing cyclic and deep schema graphs terminates with balanced state.
+
+vf.corr.parser ties the tracker/parser models to the real loader and evaluates C08's invariants on random schema graphs.  The model's
+node language has no null / typeless nodes, so a second, implementation-only monitor below feeds documents with null property nodes,
+null composition members and empty schemas and checks the rest state directly on the real tracker.
+"""
 from __future__ import annotations
 
+import json
+
 from .. import findings
+from ..common import Run, rng
 from . import _generic as g, _parser
 
 PROP = "C08"
 
 
+def monitor_doc(doc: dict, max_depth: int | None = None) -> list[str]:
+    """Load `doc` with the real loader while watching the real tracker; returns violated invariants."""
+    import os
+    import warnings
+    from pyopenapi_gen.core.parsing import unified_cycle_detection as ucd
+    from pyopenapi_gen.core.parsing import schema_parser as sp
+    bad: list[str] = []
+    seen_ctx = {}
+    orig_enter, orig_exit = ucd.unified_enter_schema, ucd.unified_exit_schema
+    names_attr = [m for m in (sp,) if hasattr(m, "unified_enter_schema")]
+
+    def enter(name, context, *a, **k):
+        seen_ctx["ctx"] = context
+        r = orig_enter(name, context, *a, **k)
+        if context.recursion_depth < 0:
+            bad.append(f"depth {context.recursion_depth} < 0 after enter({name!r})")
+        return r
+
+    def exit_(name, context, *a, **k):
+        r = orig_exit(name, context, *a, **k)
+        if context.recursion_depth < 0:
+            bad.append(f"depth {context.recursion_depth} < 0 after exit({name!r})")
+        return r
+    old_env = os.environ.get("PYOPENAPI_MAX_DEPTH")
+    if max_depth is not None:
+        os.environ["PYOPENAPI_MAX_DEPTH"] = str(max_depth)
+    ucd.unified_enter_schema, ucd.unified_exit_schema = enter, exit_
+    for m in names_attr:
+        m.unified_enter_schema, m.unified_exit_schema = enter, exit_
+    try:
+        from pyopenapi_gen.core.loader.loader import load_ir_from_spec
+        with warnings.catch_warnings():
+            warnings.simplefilter("ignore")
+            try:
+                ir = load_ir_from_spec(doc)
+            except RecursionError:
+                return ["RecursionError: the interpreter stack was exhausted"]
+            except Exception as e:  # a visible failure is allowed unless it is the post-condition on declared names
+                if "was not parsed" in str(e):
+                    return [f"declared name missing: {e}"]
+                return [f"load raised {type(e).__name__}: {str(e)[:160]}"]
+        ctx = seen_ctx.get("ctx")
+        if ctx is not None:
+            if ctx.recursion_depth != 0:
+                bad.append(f"recursion_depth = {ctx.recursion_depth} at rest")
+            stack = list(getattr(ctx, "schema_stack", []))
+            if stack:
+                bad.append(f"schema_stack not empty at rest: {stack[:5]}")
+            inprog = [n for n, st in getattr(ctx, "schema_states", {}).items() if "PROGRESS" in str(st).upper()]
+            if inprog:
+                bad.append(f"left IN_PROGRESS: {inprog[:5]}")
+        from pyopenapi_gen.core.utils import NameSanitizer
+        for n in doc.get("components", {}).get("schemas", {}):
+            if n not in ir.schemas and NameSanitizer.sanitize_class_name(n) not in ir.schemas:
+                bad.append(f"declared schema {n!r} absent from the result")
+    finally:
+        ucd.unified_enter_schema, ucd.unified_exit_schema = orig_enter, orig_exit
+        for m in names_attr:
+            m.unified_enter_schema, m.unified_exit_schema = orig_enter, orig_exit
+        if max_depth is not None:
+            if old_env is None:
+                os.environ.pop("PYOPENAPI_MAX_DEPTH", None)
+            else:
+                os.environ["PYOPENAPI_MAX_DEPTH"] = old_env
+    return bad
+
+
+def null_docs(r, n: int):
+    names = ["Alpha", "Beta", "Gamma", "Delta", "Omega", "Kappa"]
+    for i in range(n):
+        k = r.randint(2, 6)
+        schemas = {}
+        for j, nm in enumerate(r.sample(names, k)):
+            props = {}
+            for p in r.sample(["id", "name", "extra", "meta", "child", "note", "items"], r.randint(1, 4)):
+                c = r.random()
+                if c < 0.3:
+                    props[p] = None                                   # YAML `extra:` with nothing after the colon
+                elif c < 0.45:
+                    props[p] = {}                                     # empty (typeless) schema
+                elif c < 0.6 and schemas:
+                    props[p] = {"$ref": f"#/components/schemas/{r.choice(list(schemas))}"}
+                elif c < 0.7:
+                    props[p] = {"type": "array", "items": r.choice([None, {}, {"type": "string"}])} if r.random() < 0.5 else {"type": "array"}
+                elif c < 0.8:
+                    props[p] = {"allOf": [None, {"type": "object", "properties": {"a": {"type": "string"}}}]}
+                else:
+                    props[p] = {"type": r.choice(["string", "integer", "boolean"])}
+            schemas[nm] = {"type": "object", "properties": props}
+        yield {"openapi": "3.0.3", "info": {"title": "N", "version": "1"}, "paths": {}, "components": {"schemas": schemas}}, r.choice([None, 3, 10])
+
+
 def check(run, ctx) -> None:
     known = findings.Known(run, PROP)
     _parser.run(run, ctx, PROP, known)
+    r = rng("C08:null")
+    n = ctx.budget(150, 1500)
+    nbad = 0
+    for doc, md in null_docs(r, n):
+        run.count({"doc": doc, "max_depth": md}, nontrivial=True)
+        fails = monitor_doc(doc, md)
+        if fails and len(run.violations) < 5:
+            nbad += 1
+            run.violation("input", {"null_doc": doc, "max_depth": md}, observed=fails, expected="tracker at rest (depth 0, empty stack, nothing IN_PROGRESS), every declared name present",
+                          what=f"documents with null / empty schema nodes (PYOPENAPI_MAX_DEPTH={md}): " + "; ".join(fails)[:300])
+    run.cov.setdefault("oracle_evaluations", {})["null-node monitor on the real tracker"] = n
+    run.cov["rule"] = (run.cov.get("rule") or "") + " [null-node monitor] random documents whose property / items / allOf nodes are null or empty, depth limits {default,3,10}; rest state checked on the real ParsingContext"
     known.report_unreplayed()
 
 
@@ -18,4 +130,7 @@ def search(run, ctx) -> None:
 
 
 def replay(run, ctx, rec) -> bool:
+    case = rec.get("case") or {}
+    if "null_doc" in case:
+        return bool(monitor_doc(case["null_doc"], case.get("max_depth")))
     return g.replay_generic(rec)
